@@ -339,13 +339,27 @@ Fixpoint has_dot (s : string) : bool :=
    primitive in the place of another text would name another setting) *)
 Definition const_name (e : vexp) : bool :=
   match e with EConst n => negb (has_dot n) | _ => false end.
+(* an expression that never evaluates to the empty text *)
+Fixpoint nonempty_exp (e : vexp) : bool :=
+  match e with
+  | EConst s => negb (String.eqb s "")
+  | ESplice ps => existsb nonempty_exp ps
+  | EDefault _ r _ => nonempty_exp r
+  | _ => false
+  end.
+(* No alternative operator and no default that can be empty: a value obtained while a cycle was
+   being absorbed is cached for the call, and an EMPTY one (the alternative operator's answer for
+   a re-entered name) makes a later `${x:?...}` fail where the setting read on its own succeeds
+   (found by the thorough tier: a: ${c:d0}, b: ${c:+alt1}, c: ${b:?boom2}) *)
 Fixpoint exp_simple (e : vexp) : bool :=
   match e with
   | EConst _ => true
   | ERef p _ => (List.length p <=? 1)%nat
   | ESplice ps => forallb exp_simple ps
   | ESingle _ _ => false
-  | EDefault l r _ | EAlt l r _ | EErr l r _ => const_name l && exp_simple r
+  | EDefault l r _ => const_name l && exp_simple r && nonempty_exp r
+  | EAlt _ _ _ => false
+  | EErr l r _ => const_name l && exp_simple r
   end.
 Fixpoint refs_simple (v : value) : bool :=
   match v with
